@@ -195,6 +195,11 @@ fn event_accessors(e: &Event) -> String {
         Ok(j) => hex(&j),
         Err(_) => "jsonerr".into(),
     };
+    // the remaining public methods: called for totality only (clock-dependent or formatting output)
+    let _ = e.is_expired();
+    let _ = e.to_owned();
+    let _ = format!("{}", e);
+    let _ = e.len();
     format!(
         "ok {} {} {} {} {} {} {} {} gs={}",
         hex(e.id().as_slice()),
@@ -223,8 +228,17 @@ fn filter_accessors(f: &Filter) -> String {
         Err(_) => "jsonerr".into(),
     };
     let j = |v: Vec<String>| if v.is_empty() { "_".to_string() } else { v.join(",") };
+    let _ = f.completes();
+    let _ = f.to_owned();
+    let _ = format!("{}", f);
+    let _ = f.len();
+    let hll = match f.hyperloglog_offset() {
+        Ok(Some(n)) => n.to_string(),
+        Ok(None) => "none".to_string(),
+        Err(_) => "err".to_string(),
+    };
     format!(
-        "ok {} {} {} {} {} {} {} {} n={},{},{}",
+        "ok {} {} {} {} {} {} {} {} n={},{},{} hll={}",
         j(ids),
         j(authors),
         j(kinds),
@@ -235,7 +249,8 @@ fn filter_accessors(f: &Filter) -> String {
         json,
         f.num_ids(),
         f.num_authors(),
-        f.num_kinds()
+        f.num_kinds(),
+        hll
     )
 }
 
@@ -302,7 +317,15 @@ fn db_err_class(e: &pocket_db::Error) -> &'static str {
 }
 
 pub fn screen_fn(mode: &str) -> impl Fn(&Event) -> ScreenResult + '_ {
-    move |e: &Event| match mode {
+    move |e: &Event| {
+        // a yield point inside a running query (the caller's screening callback), for the schedule controller
+        crate::conc::user_point("screen:call");
+        screen_mode(mode, e)
+    }
+}
+
+fn screen_mode(mode: &str, e: &Event) -> ScreenResult {
+    match mode {
         "p" => match e.id().as_slice()[31] % 3 {
             0 => ScreenResult::Match,
             1 => ScreenResult::Mismatch,
@@ -316,6 +339,17 @@ pub fn screen_fn(mode: &str) -> impl Fn(&Event) -> ScreenResult + '_ {
 
 pub fn store_req(store: &Store, cmd: &str, a: &[&str]) -> Result<String, String> {
     match cmd {
+        "SEQ" => {
+            // several requests in a row on one thread, separated by ";;": replies joined by " ;; "
+            let mut out = vec![];
+            for part in a.split(|x| *x == ";;") {
+                if part.is_empty() {
+                    continue;
+                }
+                out.push(store_req(store, part[0], &part[1..])?);
+            }
+            Ok(out.join(" ;; "))
+        }
         "STO" => {
             let ev = build_event(a)?;
             match store.store_event(&ev) {
